@@ -256,13 +256,16 @@ pub fn open_sigs(prop: &str) -> Vec<String> {
 /// Candidate failures from comparing a reference dump with the dump under judgement: one per differing
 /// index-level section; if none of those differs, the first differing computed section.
 pub fn dump_candidates(prefix: &str, reference: &Dump, got: &Dump) -> Vec<(String, String)> {
-    dump_candidates_touched(prefix, reference, got, None)
+    dump_candidates_touched(prefix, reference, got, None, None)
 }
 
 /// `touched`: names of the files the history re-submitted / edited (None = unknown).  A member that
 /// disappears although its own file was not touched was attached across files (its owner is resolved
 /// through a declaration in a touched file) and was not re-attached.
-pub fn dump_candidates_touched(prefix: &str, reference: &Dump, got: &Dump, touched: Option<&[String]>) -> Vec<(String, String)> {
+///
+/// `files`: the current texts; lets a diagnostics-only difference be tied to the source line it is
+/// reported on (does that line use a global that has declarations in several files?).
+pub fn dump_candidates_touched(prefix: &str, reference: &Dump, got: &Dump, touched: Option<&[String]>, files: Option<&[WsFile]>) -> Vec<(String, String)> {
     let diffs = reference.diff(got);
     let mut out = vec![];
     let is_root = |d: &dump::Diff| dump::ROOT_SECTIONS.contains(&d.section.as_str());
@@ -287,6 +290,47 @@ pub fn dump_candidates_touched(prefix: &str, reference: &Dump, got: &Dump, touch
     }
     let mentions = |line: &String| -> bool { line.split(|c: char| !(c.is_alphanumeric() || c == '_')).any(|w| multi.iter().any(|m| m == w)) };
     let about_multi = |d: &dump::Diff| -> bool { !multi.is_empty() && d.only_left.iter().chain(d.only_right.iter()).all(mentions) };
+    // owners with one member key defined in >= 2 files: the definitions of a key are kept in analysis order
+    // (LuaMemberIndexItem::Many) and the first one decides type checks (C08-F11)
+    let mut multi_member_owners: Vec<String> = vec![];
+    if let Some(members) = reference.sections.get("member") {
+        let mut seen: Vec<(String, String)> = vec![];
+        for m in members {
+            let key = m.split(" at ").next().unwrap_or("").to_string();
+            let file = m.split(" at ").nth(1).unwrap_or("").split('@').next().unwrap_or("").to_string();
+            if seen.iter().any(|(k, f)| *k == key && *f != file) {
+                let owner = key.rsplit_once('.').map(|x| x.0).unwrap_or(&key).rsplit(':').next().unwrap_or("").to_string();
+                if !multi_member_owners.contains(&owner) {
+                    multi_member_owners.push(owner);
+                }
+            }
+            seen.push((key, file));
+        }
+    }
+    if !any_root && !multi_member_owners.is_empty() {
+        if let Some(d) = diffs.iter().find(|d| d.section != "diag" || diffs.len() == 1) {
+            let mentions_owner = |line: &String| line.split(|c: char| !(c.is_alphanumeric() || c == '_' || c == '.')).any(|w| multi_member_owners.iter().any(|m| m == w));
+            if d.only_left.iter().chain(d.only_right.iter()).all(mentions_owner) {
+                return vec![(format!("{prefix}member-definition-order"), dump::render_diffs(&diffs, 10))];
+            }
+        }
+    }
+    if !any_root && diffs.len() == 1 && diffs[0].section == "diag" && !multi.is_empty() {
+        if let Some(files) = files {
+            // "<file> L:C-L:C code ..." -> the source line the diagnostic sits on
+            let on_multi_line = |line: &String| -> bool {
+                let mut it = line.split(' ');
+                let (Some(file), Some(range)) = (it.next(), it.next()) else { return false };
+                let Some(row) = range.split(':').next().and_then(|r| r.parse::<usize>().ok()) else { return false };
+                let Some(f) = files.iter().find(|f| f.name == file) else { return false };
+                let Some(src) = f.text.lines().nth(row) else { return false };
+                src.split(|c: char| !(c.is_alphanumeric() || c == '_')).any(|w| multi.iter().any(|m| m == w))
+            };
+            if diffs[0].only_left.iter().chain(diffs[0].only_right.iter()).all(on_multi_line) {
+                return vec![(format!("{prefix}multi-decl-global-order"), dump::render_diffs(&diffs, 10))];
+            }
+        }
+    }
     if !any_root {
         if let Some(d) = diffs.iter().find(|d| d.section == "sem") {
             let k = dump::classify_with(&[d.clone()], Some(reference));
